@@ -70,12 +70,15 @@ class FatalScenario:
         self.list_every = self.nmsgs <= 40
         # a housekeeping thread called flush() earlier and is still inside a slow sink at the end of the walk
         self.bgflush = self.config != "oneline" and rnd.random() < 0.3
+        # another thread is inside the pipeline (holding the logger's mutex) for 3.6 s when the fatal message arrives
+        # - longer than any timeout a log call could give up after; two scenarios of the quick tier, a few more of the other
+        self.bgbusy = 3600 if (self.config != "oneline" and sid % 9 == 4) else 0
 
     def to_json(self, root):
         return {"id": self.id, "root": str(root), "config": self.config, "sinks": self.sinks, "now": R.ms_of(2, 100),
                 "msgs": [R.b64(self.payload[i]) for i in range(1, self.nmsgs + 1)], "fatal": R.b64(self.payload[self.nmsgs + 1]),
                 "fatalThread": self.fatal_thread, "listEvery": self.list_every, "badflush": self.badflush,
-                "filtered": self.filtered, "fatalPrefix": f"r{self.nmsgs + 1}:", "bgflush": self.bgflush}
+                "filtered": self.filtered, "fatalPrefix": f"r{self.nmsgs + 1}:", "bgflush": self.bgflush, "bgbusy": self.bgbusy}
 
     def behind_filter(self):
         """the sinks the fatal message does not reach: the one behind the filter, and in the nested configuration also
@@ -92,6 +95,7 @@ class FatalScenario:
         return {"id": self.id, "config": self.config, "sinks": self.sinks, "messages": self.nmsgs, "fatal_thread": self.fatal_thread, "a_sink_whose_flush_fails_comes_first": self.badflush,
                 "sink_behind_a_filter_that_rejects_the_fatal_message": self.filtered,
                 "another_thread_is_inside_flush_in_a_slow_last_sink": self.bgflush,
+                "another_thread_holds_the_logger_inside_the_pipeline_for_ms": self.bgbusy,
                 "fatal_bytes": len(self.payload[self.nmsgs + 1])}
 
 
@@ -272,6 +276,7 @@ def run(pid, tier, seed):
         if i >= len(scns) - nt:
             s.fatal_thread = "main"         # one thread only: a library without thread support is not to be shared
             s.bgflush = False
+            s.bgbusy = 0
         raw, final, rc = run_child(bdir_nt if i >= len(scns) - nt else bdir, s, work)
         if rc != -signal.SIGABRT:
             not_aborted.append((s, rc))
